@@ -47,6 +47,9 @@ pub fn install_quiet_panic_hook() {
             "<non-string panic>".to_string()
         };
         let loc = info.location().map(|l| format!("{}:{}", l.file(), l.line())).unwrap_or_default();
+        if std::env::var("POULPY_SIM_VERBOSE_PANIC").is_ok() {
+            eprintln!("panic: {msg} @ {loc}\n{}", std::backtrace::Backtrace::force_capture());
+        }
         LAST_PANIC.with(|p| *p.borrow_mut() = Some(format!("{msg} @ {loc}")));
     }));
 }
